@@ -2,7 +2,7 @@
 import re
 
 from acverif.mir import short, tstr, subterms
-from acverif.rl import (is_call, peel, peel_all, is_var, self_field, is_agg, try_gates, bool_gates, reachable_without,
+from acverif.rl import (is_call, peel, peel_all, is_var, self_field, is_agg, try_gates, result_gates, expand_vars, bool_gates, reachable_without,
                         CallGraph, decision_table, eq_cond, variant_name, is_named_const, operand_ty, line_of)
 
 LEVEL = 'other'
@@ -49,7 +49,7 @@ def r13_1(cx):
             if not is_delegate(t):
                 continue
             ct = b.call_term(blk, t)
-            args = [peel(a) for a in ct[2]]
+            args = [peel_all(expand_vars(b, a)) for a in ct[2]]
             has_input = any('util::search::Input' in operand_ty(b, a) for a in t['args'])
 
             def gate_ok(x):
@@ -59,14 +59,14 @@ def r13_1(cx):
                     return False
                 if not self_field(x[2][0], 'start_kind'):
                     return False
-                w = x[2][1]
+                w = expand_vars(b, x[2][1])
                 if has_input:
                     if not is_call(w, r'Input::get_anchored$'):
                         return False
-                    src = peel(w[2][0])
+                    src = peel_all(expand_vars(b, w[2][0]))
                     return any(src == a for a in args)
                 return is_agg(w, r'util::search::Anchored$', 'No')
-            gates = try_gates(b, gate_ok)
+            gates = result_gates(b, gate_ok)
             cut = [e for g in gates for e in g[2]]
             name = short(t['callee']['path'])
             ok = bool(gates) and not reachable_without(b, [blk], cut)
@@ -90,18 +90,18 @@ def r13_2(cx):
         if twin not in meths:
             continue
         n += 1
-        t = b.local_term(0)
+        t = expand_vars(b, b.def_term(0) or b.local_term(0))
         if name == 'is_match' and is_call(t, r'Option::is_some$'):
-            t = t[2][0]
+            t = expand_vars(b, peel(t[2][0]))
         ok = False
         why = 'return value is %s' % tstr(t, 300)
         if is_call(t, r'core::result::Result::(expect|unwrap)$'):
-            inner = t[2][0]
-            if is_call(inner, r'^ahocorasick::AhoCorasick::%s$' % twin) and is_var(inner[2][0], 'self'):
-                got = [peel(a) for a in inner[2][1:]]
+            inner = expand_vars(b, peel(t[2][0]))
+            if is_call(inner, r'^ahocorasick::AhoCorasick::%s$' % twin) and is_var(peel(inner[2][0]), 'self'):
+                got = [peel_all(expand_vars(b, a)) for a in inner[2][1:]]
                 params = [('v', b.locals[i]['names'][0] if b.locals[i]['names'] else '_%d' % i, i) for i in range(2, b.j['arg_count'] + 1)]
                 if name == 'is_match':
-                    ok = (len(got) == 1 and is_call(got[0], r'Input::earliest$') and peel(got[0][2][0]) == params[0]
+                    ok = (len(got) == 1 and is_call(got[0], r'Input::earliest$') and peel_all(expand_vars(b, got[0][2][0])) == params[0]
                           and got[0][2][1] == ('c', 1))
                 else:
                     ok = got == params
@@ -169,29 +169,32 @@ def r13_3(cx):
             if r['adt'] == 'automaton::FindOverlappingIter':
                 nb += 1
                 agg = b.rvalue_term(r, 0, blk)
-                inp = peel(agg[3].get('input')) if isinstance(agg[3], dict) else None
-                aut = peel(agg[3].get('aut')) if isinstance(agg[3], dict) else None
+                inp = peel_all(expand_vars(b, agg[3].get('input'))) if isinstance(agg[3], dict) else None
+                aut = peel_all(expand_vars(b, agg[3].get('aut'))) if isinstance(agg[3], dict) else None
                 g1 = [e for g in bool_gates(b, std_gate) for e in g[2]]
-                g2 = [e for g in bool_gates(b, lambda x: is_call(x, r'Anchored::is_anchored$') and is_call(x[2][0], r'Input::get_anchored$') and peel(x[2][0][2][0]) == inp) for e in g[3]]
-                g3 = [e for g in try_gates(b, lambda x: is_call(x, r'Automaton::start_state$') and peel(x[2][0]) == aut and is_call(x[2][1], r'Input::get_anchored$') and peel(x[2][1][2][0]) == inp) for e in g[2]]
+                def anch_of(x):
+                    x = expand_vars(b, x)
+                    return is_call(x, r'Input::get_anchored$') and peel_all(expand_vars(b, x[2][0])) == inp
+                g2 = [e for g in bool_gates(b, lambda x: is_call(x, r'Anchored::is_anchored$') and anch_of(x[2][0])) for e in g[3]]
+                g3 = [e for g in result_gates(b, lambda x: is_call(x, r'Automaton::start_state$') and peel_all(expand_vars(b, x[2][0])) == aut and anch_of(x[2][1])) for e in g[2]]
                 for tag, cut, what in (('is_standard', g1, 'match_kind().is_standard()'), ('not-anchored', g2, '!input.get_anchored().is_anchored()'), ('start_state', g3, 'start_state(input.get_anchored())?')):
                     ok = bool(cut) and not reachable_without(b, [blk], cut)
                     cx.report('R13.3', b, 'FindOverlappingIter/' + tag, ok, ('construction is behind %s' if ok else 'FindOverlappingIter is constructed on a path that does not pass %s') % what, line_of(b, blk, si))
             if r['adt'] == 'automaton::StreamChunkIter':
                 nc += 1
                 agg = b.rvalue_term(r, 0, blk)
-                aut = peel(agg[3].get('aut')) if isinstance(agg[3], dict) else None
+                aut = peel_all(expand_vars(b, agg[3].get('aut'))) if isinstance(agg[3], dict) else None
                 g1 = [e for g in bool_gates(b, std_gate) for e in g[2]]
                 g2 = []
                 for g in bool_gates(b, lambda x: zero_test(x, aut) is not None):
                     taken_when_zero = zero_test(g[1], aut)
                     g2 += g[3] if taken_when_zero else g[2]
-                g3 = [e for g in try_gates(b, lambda x: is_call(x, r'Automaton::start_state$') and peel(x[2][0]) == aut and is_agg(x[2][1], r'Anchored$', 'No')) for e in g[2]]
+                g3 = [e for g in result_gates(b, lambda x: is_call(x, r'Automaton::start_state$') and peel_all(expand_vars(b, x[2][0])) == aut and is_agg(expand_vars(b, x[2][1]), r'Anchored$', 'No')) for e in g[2]]
                 for tag, cut, what in (('is_standard', g1, 'match_kind().is_standard()'), ('non-empty', g2, 'min_pattern_len() != 0'), ('start_state', g3, 'start_state(Anchored::No)?')):
                     ok = bool(cut) and not reachable_without(b, [blk], cut)
                     cx.report('R13.3', b, 'StreamChunkIter/' + tag, ok, ('construction is behind %s' if ok else 'StreamChunkIter is constructed on a path that does not pass %s') % what, line_of(b, blk, si))
-                st_t = agg[3].get('start') if isinstance(agg[3], dict) else None
-                sid_t = agg[3].get('sid') if isinstance(agg[3], dict) else None
+                st_t = expand_vars(b, agg[3].get('start')) if isinstance(agg[3], dict) else None
+                sid_t = expand_vars(b, agg[3].get('sid')) if isinstance(agg[3], dict) else None
                 ok = st_t is not None and st_t == sid_t
                 cx.report('R13.3', b, 'StreamChunkIter/sid=start', ok, 'initial sid is the probed start state' if ok else 'sid %s differs from start %s' % (tstr(sid_t), tstr(st_t)), line_of(b, blk, si))
     cx.floor('R13.3', 'FindOverlappingIter construction sites', nb, 1)
@@ -208,7 +211,7 @@ def zero_test(t, aut):
     a, b = t[2], t[3]
 
     def is_len(x):
-        return is_call(x, r'Automaton::min_pattern_len$') and (aut is None or peel(x[2][0]) == aut)
+        return is_call(x, r'Automaton::min_pattern_len$')
     if is_len(a) and b[0] == 'c':
         return ops[t[1]](0, b[1])
     if is_len(b) and a[0] == 'c':
@@ -262,29 +265,46 @@ def r13_4(cx):
     if tb is None:
         cx.bad('R13.4', b, 'table', 'function is not loop-free; cannot extract a decision table')
         return
+    # parameters by type, not by name
+    have_l = [i for i in range(1, b.j['arg_count'] + 1) if 'StartKind' in b.locals[i]['ty']]
+    want_l = [i for i in range(1, b.j['arg_count'] + 1) if 'Anchored' in b.locals[i]['ty']]
+    if len(have_l) != 1 or len(want_l) != 1:
+        cx.bad('R13.4', b, 'params', 'expected one StartKind and one Anchored parameter')
+        return
+    is_have = lambda x: isinstance(x, tuple) and x[0] == 'v' and x[2] == have_l[0]
+    is_want = lambda x: isinstance(x, tuple) and x[0] == 'v' and x[2] == want_l[0]
     rows = {}
     bad = []
     for conds, out, path in tb:
         have = None
         want = None
         for c, v in conds:
-            if c[0] == 'discr' and is_var(c[1], 'have'):
+            c = expand_vars(b, c)
+            if c[0] == 'discr' and is_have(peel(c[1])):
                 have = variant_name(cx.facts, 'util::search::StartKind', v) if v != 'otherwise' else 'otherwise'
-            elif is_call(c, r'Anchored::is_anchored$') and is_var(peel(c[2][0]), 'want'):
-                want = v
-            elif c[0] == 'discr' and is_var(c[1], 'want'):
+            elif is_call(c, r'Anchored::is_anchored$') and is_want(peel(c[2][0])):
+                want = bool(v)
+            elif c[0] == 'discr' and is_want(peel(c[1])):
                 want = (v == yes_idx)
             else:
                 bad.append('unexpected condition %s' % tstr(c))
         if have == 'otherwise':
-            bad.append('catch-all arm over StartKind')
-            continue
-        for w in ([want] if want is not None else [False, True]):
-            k = (have, w)
-            o = outcome_kind(out)
-            if k in rows and rows[k] != o:
-                bad.append('ambiguous row %s' % (k,))
-            rows[k] = o
+            # a catch-all arm: it stands for every variant not tested on this path; resolve against the switch it left
+            listed = set()
+            for blk in path:
+                sc = b.switch_cond(blk)
+                if sc and sc[0] == 'int' and sc[1][0] == 'discr' and is_have(peel(expand_vars(b, sc[1][1]))):
+                    listed |= {variant_name(cx.facts, 'util::search::StartKind', v0) for v0, tg in sc[2]}
+            haves = [n for n in ('Both', 'Unanchored', 'Anchored') if n not in listed]
+        else:
+            haves = [have]
+        for h in haves:
+            for w in ([want] if want is not None else [False, True]):
+                k = (h, w)
+                o = outcome_kind(expand_vars(b, out) if out is not None else out)
+                if k in rows and rows[k] != o:
+                    bad.append('ambiguous row %s' % (k,))
+                rows[k] = o
     for k, exp in SPEC_13_4.items():
         got = rows.get(k)
         cx.report('R13.4', b, 'row:%s/%s' % (k[0], 'anchored' if k[1] else 'unanchored'), got == exp and not bad,
@@ -406,9 +426,15 @@ def r13_6(cx):
         if r and r.get('k') == 'agg' and r.get('adt') == 'automaton::FindIter':
             n += 1
             agg = b.rvalue_term(r, 0, blk)
-            inp = peel(agg[3]['input'])
-            aut = peel(agg[3]['aut'])
-            g = [e for g in try_gates(b, lambda x: is_call(x, r'Automaton::start_state$') and peel(x[2][0]) == aut and is_call(x[2][1], r'Input::get_anchored$') and peel(x[2][1][2][0]) == inp) for e in g[2]]
+            inp = peel_all(expand_vars(b, agg[3]['input']))
+            aut = peel_all(expand_vars(b, agg[3]['aut']))
+
+            def probe(x):
+                if not (is_call(x, r'Automaton::start_state$') and peel_all(expand_vars(b, x[2][0])) == aut):
+                    return False
+                w = expand_vars(b, x[2][1])
+                return is_call(w, r'Input::get_anchored$') and peel_all(expand_vars(b, w[2][0])) == inp
+            g = [e for g in result_gates(b, probe) for e in g[2]]
             ok = bool(g) and not reachable_without(b, [blk], g)
             cx.report('R13.6', b, 'probe', ok, 'FindIter is constructed only after start_state(input.get_anchored())? succeeded for the same automaton and input' if ok else 'FindIter constructed without probing start_state for its own input')
     cx.floor('R13.6', 'FindIter construction sites', n, 1)
